@@ -110,6 +110,21 @@ func driveBundle(c *Ctx) error {
 				}
 			}
 		}
+		// failure-heavy sets: at least as many failing images as worker slots (16), followed by loadable ones
+		for _, nf := range []int{16, 17, 20} {
+			n := nf + 4
+			var ord, f []int
+			for j := 1; j <= n; j++ {
+				ord = append(ord, j)
+				if j <= nf {
+					f = append(f, j)
+				}
+			}
+			inputs = append(inputs, bundleInput{Mode: "remote", N: n, Order: ord, Fails: f, Layout: "plain"})
+			if nf == 16 {
+				inputs = append(inputs, bundleInput{Mode: "local", N: n, Order: ord, Fails: f, Layout: "plain"})
+			}
+		}
 		// larger sets (more images than the 16 worker slots), random orders and failures
 		big := 6
 		if c.Thorough() {
@@ -269,7 +284,7 @@ func bundleRun(in bundleInput) ([]tr.M, error) {
 		err error
 	}
 	resc := make(chan result, 1)
-	ctx, cancel := context.WithTimeout(context.Background(), 20*time.Second)
+	ctx, cancel := context.WithTimeout(context.Background(), 10*time.Second)
 	defer cancel()
 	nolog := func(string) {}
 	l := simplelog.Make(&nolog, &nolog, &nolog)
@@ -299,15 +314,20 @@ func bundleRun(in bundleInput) ([]tr.M, error) {
 			go func() {
 				defer wg.Done()
 				defer close(done)
-				f, err := os.OpenFile(p, os.O_WRONLY, 0) // blocks until the worker opens the FIFO for reading
-				if err == nil {
-					f.Write(imgContent(i, in.Layout))
-					f.Close()
+				// wait (bounded) until the worker has opened the FIFO for reading: a non-blocking open for writing
+				// fails with ENXIO until then. A worker that never starts must not hang the harness.
+				for dl := time.Now().Add(3 * time.Second); time.Now().Before(dl); time.Sleep(500 * time.Microsecond) {
+					f, err := os.OpenFile(p, os.O_WRONLY|syscall.O_NONBLOCK, 0)
+					if err == nil {
+						f.Write(imgContent(i, in.Layout))
+						f.Close()
+						return
+					}
 				}
 			}()
 			select {
 			case <-done:
-			case <-time.After(5 * time.Second):
+			case <-time.After(4 * time.Second):
 			}
 		}
 		time.Sleep(1500 * time.Microsecond)
